@@ -22,21 +22,21 @@ var run *fw.Run
 var debugProbe bool
 
 type cfg struct {
-	K       int    `json:"k"`
-	Kind    string `json:"kind"` // silent, fastrexmit, cwnd
-	CC      string `json:"cc"`
-	V6      bool   `json:"v6"`
-	Active  bool   `json:"active"`
-	MSS     uint16 `json:"mss"`
-	TS      bool   `json:"ts"`
-	SACK    bool   `json:"sack"`
-	Flight  int    `json:"flight"`   // segments written
-	Lost    int    `json:"lost"`     // index of the lost segment (fastrexmit)
-	AckFirst int   `json:"ack_first"` // segments acknowledged before the silence
-	RTTus   int    `json:"rtt_us"`   // peer delays its ACKs by this much
-	PartialAcks bool `json:"partial_acks"` // ACKs that fall inside segments (ack division)
-	DupAcks int    `json:"dup_acks"`
-	OwnISS  uint32 `json:"own_iss"`
+	K           int    `json:"k"`
+	Kind        string `json:"kind"` // silent, fastrexmit, cwnd
+	CC          string `json:"cc"`
+	V6          bool   `json:"v6"`
+	Active      bool   `json:"active"`
+	MSS         uint16 `json:"mss"`
+	TS          bool   `json:"ts"`
+	SACK        bool   `json:"sack"`
+	Flight      int    `json:"flight"`       // segments written
+	Lost        int    `json:"lost"`         // index of the lost segment (fastrexmit)
+	AckFirst    int    `json:"ack_first"`    // segments acknowledged before the silence
+	RTTus       int    `json:"rtt_us"`       // peer delays its ACKs by this much
+	PartialAcks bool   `json:"partial_acks"` // ACKs that fall inside segments (ack division)
+	DupAcks     int    `json:"dup_acks"`
+	OwnISS      uint32 `json:"own_iss"`
 }
 
 func gen(seed int64, k int) cfg {
@@ -131,13 +131,16 @@ func scenario(c cfg) {
 	var log []txRec
 	lastTx := map[int64]time.Duration{} // segment start -> last transmission time
 	firstTx := map[int64]bool{}
-	var highestAck int64   // cumulative ack delivered to the stack
+	var highestAck int64 // cumulative ack delivered to the stack
 	var dupAcksDelivered int
 	var acksDelivered int
-	segEnds := map[int64]int64{} // start -> end of every distinct segment seen
+	// end -> smallest start of every distinct segment seen. Keyed by the end: after an ACK
+	// that falls inside a segment the remainder is retransmitted from a new start, which is
+	// still the same segment (the stack never re-segments), not one more in flight.
+	segEnds := map[int64]int64{}
 	inflight := func() int {
 		n := 0
-		for st, en := range segEnds {
+		for en, st := range segEnds {
 			if en > highestAck && st >= 0 {
 				n++
 			}
@@ -146,7 +149,7 @@ func scenario(c cfg) {
 	}
 	segsAcked := func() int {
 		n := 0
-		for _, en := range segEnds {
+		for en := range segEnds {
 			if en <= highestAck {
 				n++
 			}
@@ -167,7 +170,9 @@ func scenario(c cfg) {
 			if !firstTx[rel] {
 				firstTx[rel] = true
 			}
-			segEnds[rel] = rel + int64(len(s.Payload))
+			if st, ok := segEnds[rel+int64(len(s.Payload))]; !ok || rel < st {
+				segEnds[rel+int64(len(s.Payload))] = rel
+			}
 			if e := rel + int64(len(s.Payload)); e > maxEnd {
 				maxEnd = e
 			}
